@@ -50,7 +50,7 @@ def gen_world(rng: random.Random, *, loader=None, tomo_kind="random", max_mol=10
         "tomo_seed": rng.randrange(1 << 30),
         "n_mol": n_mol,
         "mol_seed": rng.randrange(1 << 30),
-        "rot": rng.choice(["identity", "random", "random"]),
+        "rot": rng.choice(["identity", "random", "random", "clustered"]),
         "edge": bool(allow_edge and rng.random() < 0.3),
         "box": box,
         "order": order,
@@ -116,6 +116,15 @@ def build_world(w, fail_reads=None):
             del edge_px
         if w["rot"] == "identity":
             rot = Rotation.identity(n)
+        elif w["rot"] == "clustered":
+            # nearly identical orientations (filaments, lattices): one base rotation, perturbations of 0.002-0.05 degree,
+            # and a few exact duplicates
+            base = Rotation.random(1, random_state=w["mol_seed"] + 31 * t)
+            ang = np.deg2rad(rg.uniform(0.002, 0.05, size=n))
+            axes = rg.normal(size=(n, 3))
+            axes /= np.linalg.norm(axes, axis=1, keepdims=True)
+            ang[rg.random(n) < 0.25] = 0.0
+            rot = Rotation.from_rotvec(axes * ang[:, None]) * base[0]
         else:
             rot = Rotation.random(n, random_state=w["mol_seed"] + 31 * t)
         feats = {
